@@ -146,6 +146,8 @@ def read_cgsmiles(pattern):
             # the recipe for making the branch includes the anchor;
             # which is hence the first residue in the list
             # at this point the bond order is still 1 unless we have an expansion
+            # a further branch on the same anchor starts its recipe anew at the end of the table
+            recipes.pop(prev_node, None)
             recipes[branch_anchor[-1]] = [(1, dict(mol_graph.nodes[prev_node]), 1)]
 
         # here we check if the atom is followed by a cycle marker
@@ -307,6 +309,9 @@ def read_cgsmiles(pattern):
                 eon_b = _find_next_character(pattern, next_characters, eon_a+1)
                 # with an expansion count of 1 nothing is added and we stay at the anchor
                 base_anchor = prev_node
+                # the recipes of this branch start at its anchor; entries in front of it belong to
+                # branches that are still open or were closed earlier inside an open branch
+                first_recipe = list(recipes).index(prev_node)
                 # the outermost loop goes over how often a the branch has to be
                 # added to the existing sequence
                 for idx in range(0,int(pattern[eon_a+2:eon_b])-1):
@@ -314,7 +319,7 @@ def read_cgsmiles(pattern):
                     skip = 0
                     # in principle each branch can contain any number of nested branches
                     # each branch is itself a recipe that has an anchor atom
-                    for ref_anchor, recipe in list(recipes.items())[len(branch_anchor):]:
+                    for ref_anchor, recipe in list(recipes.items())[first_recipe:]:
                         # starting from the first nested branch we have to do some
                         # math to find the anchor atom relative to the first branch
                         # we also skip the first residue in recipe, which is the
